@@ -56,6 +56,8 @@ type Contract struct {
 	Ensures    []*Clause
 	ExitReq    []*Clause
 	Invariants map[int][]*Clause
+	Each       map[int][]*Clause // per-iteration clauses: asserted at every back edge, never assumed at the header
+	Defines    []*Clause         // defines ATOM(args): formula  (Var holds the atom expression)
 	Sets       []*Clause
 	Locals     []*Clause
 	PostLocals []*Clause // ghost definitions evaluated in the post-state (results bound)
@@ -295,7 +297,7 @@ func (sp *Spec) LoadFile(path, prefix string, external bool) error {
 			if m == nil {
 				return fmt.Errorf("%s: bad func header %q", where, line)
 			}
-			cur = &Contract{Name: m[1], Invariants: map[int][]*Clause{}, External: external, Trusted: external, Source: where}
+			cur = &Contract{Name: m[1], Invariants: map[int][]*Clause{}, Each: map[int][]*Clause{}, External: external, Trusted: external, Source: where}
 			if m[2] != "" {
 				cur.Params = splitTop(m[3], ',')
 			}
@@ -365,12 +367,22 @@ func (sp *Spec) LoadFile(path, prefix string, external bool) error {
 				return fmt.Errorf("%s: loop ordinal: %v", where, err)
 			}
 			rest := strings.TrimSpace(strings.Join(fields[2:], " "))
+			isEach := false
+			if strings.HasPrefix(rest, "each") {
+				isEach = true
+				rest = "invariant" + strings.TrimPrefix(rest, "each")
+			}
 			m := reClause.FindStringSubmatch(rest)
 			if m == nil || m[1] != "invariant" {
-				return fmt.Errorf("%s: expected 'loop N invariant [label] [{props}]: expr'", where)
+				return fmt.Errorf("%s: expected 'loop N invariant|each [label] [{props}]: expr'", where)
 			}
 			c := &Clause{Kind: "invariant", Label: m[2], Props: parseProps(m[3]), Expr: m[4], Loop: n, Line: where}
-			cur.Invariants[n] = append(cur.Invariants[n], c)
+			if isEach {
+				c.Kind = "each"
+				cur.Each[n] = append(cur.Each[n], c)
+			} else {
+				cur.Invariants[n] = append(cur.Invariants[n], c)
+			}
 		case "at_call":
 			// at_call CALLEE [label] [{props}]: expr   -- asserted in the caller's state at every call to CALLEE
 			rest := strings.TrimSpace(strings.TrimPrefix(line, "at_call"))
@@ -384,6 +396,39 @@ func (sp *Spec) LoadFile(path, prefix string, external bool) error {
 				return fmt.Errorf("%s: bad at_call clause", where)
 			}
 			cur.AtCalls = append(cur.AtCalls, &Clause{Kind: "at_call", Var: callee, Label: m[2], Props: parseProps(m[3]), Expr: m[4], Line: where})
+		case "defines":
+			// defines [label] [{props}]: ATOM(args) := formula
+			m := reClause.FindStringSubmatch("requires " + strings.TrimSpace(strings.TrimPrefix(line, "defines")))
+			if m == nil {
+				return fmt.Errorf("%s: bad defines clause", where)
+			}
+			i := strings.Index(m[4], ":=")
+			if i < 0 {
+				return fmt.Errorf("%s: defines needs ATOM(args) := formula", where)
+			}
+			cur.Defines = append(cur.Defines, &Clause{Kind: "defines", Label: m[2], Props: parseProps(m[3]), Var: strings.TrimSpace(m[4][:i]), Expr: strings.TrimSpace(m[4][i+2:]), Line: where})
+		case "snapshot_after":
+			// snapshot_after CALLEE[#n] NAME := expr   -- names the value of expr right after that call (ghost)
+			rest := strings.TrimSpace(strings.TrimPrefix(line, "snapshot_after"))
+			sp1 := strings.IndexAny(rest, " \t")
+			i := strings.Index(rest, ":=")
+			if sp1 < 0 || i < sp1 {
+				return fmt.Errorf("%s: bad snapshot_after", where)
+			}
+			cur.AssumeAfter = append(cur.AssumeAfter, &Clause{Kind: "snapshot_after", Var: rest[:sp1], Label: strings.TrimSpace(rest[sp1:i]), Expr: strings.TrimSpace(rest[i+2:]), Line: where})
+		case "assert_after":
+			// assert_after CALLEE[#n] [label] [{props}]: expr  -- proved right after that call and used from then on (a cut)
+			rest := strings.TrimSpace(strings.TrimPrefix(line, "assert_after"))
+			sp1 := strings.IndexAny(rest, " \t")
+			if sp1 < 0 {
+				return fmt.Errorf("%s: bad assert_after", where)
+			}
+			callee := rest[:sp1]
+			m := reClause.FindStringSubmatch("requires " + strings.TrimSpace(rest[sp1:]))
+			if m == nil {
+				return fmt.Errorf("%s: bad assert_after clause", where)
+			}
+			cur.AssumeAfter = append(cur.AssumeAfter, &Clause{Kind: "assert_after", Var: callee, Label: m[2], Props: parseProps(m[3]), Expr: m[4], Line: where})
 		case "assume_after":
 			// assume_after CALLEE[#n] [label]: expr   -- an explicit assumption about the results of that call (listed in the evidence)
 			rest := strings.TrimSpace(strings.TrimPrefix(line, "assume_after"))
